@@ -35,7 +35,7 @@ Proof. exact run_canary_routed. Qed.
 Print Assumptions C03_routed_means_exact.
 
 (* the manager level of (2): DoTrafficRouting says done only on an already-correct gateway and Services *)
-Theorem C03_do_traffic_routing_done : forall c n g, tc_refs c = true -> strategy_empty (tc_strategy c) = false ->
+Theorem C03_do_traffic_routing_done : forall c n g, tc_refs c = true -> tc_only_traffic c = false -> strategy_empty (tc_strategy c) = false ->
   tr_ok (do_traffic_routing c n g) = true ->
   tr_writes (do_traffic_routing c n g) = [] /\ n_canary_svc n = Some (tc_canary_rev c) /\ n_stable_sel n = Some (tc_stable_rev c) /\
   (n_route n = RSet (tc_strategy c) \/ (n_route n = RNone /\ tc_strategy c = init_strategy)).
